@@ -8,6 +8,8 @@
 (*   legacy {kind}            lput {k, x}  (record placed by the harness's own   *)
 (*   open {h, kind, out, keys}             legacy encoder, or a genuine one)    *)
 (*   put {k, x, out}          get {h, k, out, x}                                *)
+(*   scribble {h, k}  (the harness edited, in place, the object the last get    *)
+(*                     of k through h returned; a later get must not show it)   *)
 (* Every event must be a step of LibCodec with Deviations = {}, and what a get *)
 (* observed must be MolModel!Same as what was put under that key -- the        *)
 (* observation is compared with the PROPERTY, not with the reference codec, so *)
@@ -35,13 +37,15 @@ TGet    == /\ Ev.ev = "get" /\ Get(Ev.h, Ev.k)
            /\ Holds(WellFormed(Ev.x))
            /\ Holds(Same(written[Ev.k], Ev.x))                             \* C01
 
+TScribble == /\ Ev.ev = "scribble" /\ Scribble(Ev.h, Ev.k)                \* the harness edited the object it was handed
 Step == /\ ti <= NT /\ l <= Len(Tr)
-        /\ (TLegacy \/ TLPut \/ TOpen \/ TPut \/ TGet)
+        /\ (TLegacy \/ TLPut \/ TOpen \/ TPut \/ TGet \/ TScribble)
         /\ l' = l + 1 /\ ti' = ti
 
 Reset == /\ file' = [exists |-> FALSE, magic |-> "none", kind |-> "none", recs |-> NoRecs]
          /\ hs' = [h \in {"w", "r"} |-> [made |-> FALSE, codec |-> 0]]
          /\ written' = NoRecs
+         /\ cache' = [h \in {"w", "r"} |-> NoRecs]
          /\ last' = [act |-> "init", out |-> "ok"]
 NextTrace == ti' = ti + 1 /\ l' = 1 /\ Reset
 Finish == /\ ti <= NT /\ l = Len(Tr) + 1
